@@ -165,7 +165,7 @@ Theorem C09_np_array_identity_on_one_kind :
 Proof. exact np_array_one_kind. Qed.
 Print Assumptions C09_np_array_identity_on_one_kind.
 
-(* The dtype SparseColumn.materialize chooses (mat_dtype, lines 428-437) holds every possible
+(* The dtype SparseColumn.materialize chooses (mat_dtype, lines 428-441) holds every possible
    stored value of the values array unchanged, and the default converts to it into a value
    that is the default itself or compares equal to it under NumPy's ==. *)
 Theorem C09_sparse_dtype_holds_values_and_default :
@@ -190,7 +190,7 @@ Print Assumptions C09_casts_are_lossy_elsewhere.
    PROVED (partial): whenever the column builds and expands, every position of the result holds
    the array element itself, unchanged in value and type, or - where NumPy's [x != default]
    answered false - the default converted to the result dtype, which is the default itself or
-   NumPy-== to it.  MISSING: (1) totality (next theorem and its _refuted), (2) NumPy's == is
+   NumPy-== to it.  MISSING: (1) totality of the constructor (F-C09-3, below), (2) NumPy's == is
    not identity: it compares int64 with float in binary64 (F-C09-4) and equates values of
    different kinds inside object arrays (F-C09-5); see the two _refuted theorems. *)
 Theorem C09_sparse_numpy_lossless_partial :
@@ -205,24 +205,33 @@ Theorem C09_sparse_numpy_lossless_partial :
 Proof. exact sparse_np_lossless. Qed.
 Print Assumptions C09_sparse_numpy_lossless_partial.
 
+(* The dtype choice of materialize never raises (F-C09-2, fixed by cf4ef68): a default without
+   a counterpart in the values' type (NaN, infinities, huge integers) leads to the object dtype. *)
+Theorem C09_sparse_dtype_choice_total :
+  forall (dv : dtype) (d : val), dv <> DUInt -> exists dt, mat_dtype dv d = Ok dt.
+Proof. exact mat_dtype_total. Qed.
+Print Assumptions C09_sparse_dtype_choice_total.
+
 (* FULL STATEMENT WANTED: forall l d, np_array l = Ok _ -> exists o, sparse_np l d None = Ok o.
-   PROVED (partial): the column builds and expands whenever the constructor's comparison and
-   materialize's dtype choice do not raise; nothing else in it can. *)
+   PROVED (partial): the column builds and expands whenever the constructor's comparison
+   [numpy.array(values) != default] does not raise; nothing else in it can.  MISSING: that
+   comparison does raise for some defaults (F-C09-3, next theorem). *)
 Theorem C09_sparse_numpy_total_partial :
-  forall (l : list val) (d : val) (dv : dtype) (arr : list val) (dt : dtype),
-  np_array l = Ok (dv, arr) -> np_cmp_guard dv d = Ok tt -> mat_dtype dv d = Ok dt ->
+  forall (l : list val) (d : val) (dv : dtype) (arr : list val),
+  np_array l = Ok (dv, arr) -> np_cmp_guard dv d = Ok tt ->
   exists o, sparse_np l d None = Ok o.
 Proof. exact sparse_np_total_partial. Qed.
 Print Assumptions C09_sparse_numpy_total_partial.
 
-(* F-C09-2: materialize raises when the default cannot be converted to the data's scalar type
-   (NaN, 2^63, 2^100 over int64 data). *)
-Theorem C09_sparse_materialize_total_refuted :
-  sparse_np [VInt 1; VInt 2; VInt 3] (VFloat FNaN) None = Raise ValueError /\
-  sparse_np [VInt 1; VInt 2; VInt 3] (VInt (2 ^ 63)) None = Raise OverflowError /\
-  sparse_np [VInt 1; VInt 2; VInt 3] (VFloat (FFin 1 100)) None = Raise OverflowError.
-Proof. exact sparse_np_raises_mat. Qed.
-Print Assumptions C09_sparse_materialize_total_refuted.
+(* the F-C09-2 witnesses now expand, unchanged, into object arrays *)
+Theorem C09_sparse_unconvertible_default_expands :
+  sparse_np [VInt 1; VInt 2; VInt 3] (VFloat FNaN) None
+  = Ok (mkobs [[VInt 1; VInt 2; VInt 3]; [VInt 1; VInt 2; VInt 3]] [[0; 1; 2]] [DInt; DObj]) /\
+  sparse_np [VInt 1; VInt 2] (VInt (2 ^ 63)) None = Ok (mkobs [[VInt 1; VInt 2]; [VInt 1; VInt 2]] [[0; 1]] [DInt; DObj]) /\
+  sparse_np [VInt 1; VInt 2] (VFloat (FFin 1 100)) None = Ok (mkobs [[VInt 1; VInt 2]; [VInt 1; VInt 2]] [[0; 1]] [DInt; DObj]) /\
+  sparse_np [VInt 1; VInt 2] (VFloat (FInf false)) None = Ok (mkobs [[VInt 1; VInt 2]; [VInt 1; VInt 2]] [[0; 1]] [DInt; DObj]).
+Proof. exact sparse_np_unconvertible_default. Qed.
+Print Assumptions C09_sparse_unconvertible_default_expands.
 
 (* F-C09-3: the constructor's comparison raises (2^70 against a bool array, 2^1024 against floats). *)
 Theorem C09_sparse_construct_total_refuted :
